@@ -130,11 +130,13 @@ pub fn strftime(ts: time::OffsetDateTime, fmt: &str) -> Result<String, DateForma
                         next!();
                     }
                     Some((dind, _c)) => {
-                        let padding: usize = fmt[ind..*dind]
+                        // `{:width$}` accepts at most `u16::MAX`; a wider field is an
+                        // invalid width, not a reason to panic in the formatter
+                        let padding: u16 = fmt[ind..*dind]
                             .parse()
                             .map_err(DateFormatError::InvalidWidth)?;
 
-                        break Some(padding);
+                        break Some(usize::from(padding));
                     }
                     None => {
                         return Err(DateFormatError::NoFormatSpecifier);
